@@ -88,6 +88,12 @@ def r04_5(ck: Check) -> None:
     require_return(ck, "R04.5", s, Spec(s, ("self",)), "self.block_by_height_by_hash[self.current_chain_hash]", "the active chain's index is the head's index")
 
 
+def r04_6(ck: Check) -> None:
+    s = ck.summ(CSQ + "forks", 0)
+    require_return(ck, "R04.6", s, Spec(s, ("self",)), "[(h, _find_lca_with_main(h)) for h in self.heads.values()]",
+                   "forks() reports every tip with its last common ancestor with the active chain")
+
+
 def check(ck: Check) -> None:
     ck.explanations.append(
         "C04: the head-update decision table, the tip-set update and the height-index update of add_block_no_validation are recovered as "
@@ -98,3 +104,4 @@ def check(ck: Check) -> None:
     ck.run("R04.3", "tip set", lambda: r04_3(ck))
     ck.run("R04.4", "height index", lambda: r04_4(ck))
     ck.run("R04.5", "readers", lambda: r04_5(ck))
+    ck.run("R04.6", "forks()", lambda: r04_6(ck))
